@@ -190,7 +190,7 @@ check('C07',
       'trig-on-fraction and "never decays to a single double" for each operand kind are decided by '
       'the correspondence run (every case evaluated by vm_compute on the model and compared BIT FOR BIT with the implementation) and by the '
       'exact-rational monitor (|result - exact| <= 2^-52, normalised, type Phase) on every run.',
-      'Trusted: Coq kernel, stdlib FloatAxioms (kernel binary64 = IEEE 754) + real-number axioms through Flocq; astropy two_sum / '
+      'Trusted: Coq kernel, stdlib FloatAxioms (kernel binary64 = IEEE 754), stdlib Uint63 axioms (of_Z_spec, for decoding / encoding doubles) + real-number axioms through Flocq; astropy two_sum / '
       'two_product / split as transcribed (bit-exact on every case); np.floor = floor; the C floor_divide of numpy / fmod = the model np_divmod (bit-exact comparison on every run; the model is proved to be the exact floor). Known finding D21 (Phase divisor in //, %, divmod '
       'raises RecursionError). Bare-number divisors of // and % raise by astropy unit convention (not sampled).',
       'machine-checked proof in Coq (Flocq) about a bit-exact binary64 model + bit-for-bit correspondence run (vm_compute) + exact-rational monitor',
